@@ -25,13 +25,13 @@ class C13(Check):
     assumptions = ["raw templater only, so 'renders' is trivially true before and after"]
 
     def pinned(self, tier):
-        return fixlib.pinned_slice(tier, ["all", "format", "core", "layout"], 6, 40, offset=1)
+        return fixlib.pinned_slice(tier, ["all", "format", "core", "layout"], 8, 30, offset=1)
 
     def strategy(self, tier):
         return fixlib.fix_case(tier=tier, kinds=SOFT_KINDS if tier == "quick" else None)
 
     def examples(self, tier):
-        return 60 if tier == "quick" else 2500
+        return 65 if tier == "quick" else 1300
 
     def budget_s(self, tier):
         return 400.0 if tier == "quick" else 1700.0
